@@ -28,7 +28,7 @@ def reg(pid, units, explanation, assumptions=(), level_text='', level_note='', t
 
 NOT_BUILT = 'unit not built yet in this session (see DESIGN.md work plan)'
 NOT_APPLICABLE = {
-    'C01': NOT_BUILT, 'C02': NOT_BUILT, 'C04': NOT_BUILT, 'C06': NOT_BUILT, 'C07': NOT_BUILT, 'C08': NOT_BUILT, 'C09': NOT_BUILT,
+    'C01': NOT_BUILT, 'C02': NOT_BUILT, 'C04': NOT_BUILT, 'C07': NOT_BUILT, 'C08': NOT_BUILT, 'C09': NOT_BUILT,
     'C10': NOT_BUILT, 'C11': NOT_BUILT, 'C12': NOT_BUILT, 'C13': NOT_BUILT, 'C15': NOT_BUILT, 'C17': NOT_BUILT,
     'C03': 'partition refinement is written as closure chains over BTreeMap<StateID, BTreeMap<CharClassID, Vec<StateID>>>; Verus cannot ingest it without a rewrite that would be a model, and the Kani stand-in did not terminate at 3 states x 2 classes (25 min, 5.7 GB)',
     'C14': 'concurrency: Kani has no thread support and Verus would need its own permission types in place of RwLock/LazyLock/Arc (a rewrite, i.e. a model)',
@@ -41,3 +41,5 @@ WF = 'wf(compiled automaton): state/end_state vectors same non-zero length, tran
 CLS = 'the class predicate closure is a total deterministic function of (class id, char) (cls_functional)'
 
 reg('C05', ['u_dfa'], 'find_post: the reported (length, token type) is one candidate with satisfied lookahead that is no_better-maximal in extent = own bytes + longest positive-lookahead match, ties by first position in terminal_ids; all unwrap/index/overflow obligations of find_from, priority_of, satisfies_lookahead', [WF, CLS])
+
+reg('C06', ['u_mode'], 'mode after every operation is the function of (old mode, token type, transition list) the property states: has_transition == lookup in the sorted list; find_from switches, peek_from/has_transition/current_mode do not, set_mode sets, reset gives 0', [WF, 'set_mode(m) is called with m < number of modes (documented precondition)'])
